@@ -899,7 +899,7 @@ fn step_trigger_period_not_internal() {
 fn trigger_period(internal: bool) {
     let period: u16 = kani::any();
     unsafe {
-        crate::vsup::VCFG_DYN = VCfg { mode: 2, target: 1, trigger_period: Some(period), ..crate::vsup::VCFG0 };
+        crate::vsup::VCFG_DYN.cfg = VCfg { mode: 2, target: 1, trigger_period: Some(period), ..crate::vsup::VCFG0 };
     }
     let mut c = Ctx::new(crate::vsup::vcfg_dyn());
     let rdh = conc_rdh(0, 1);
